@@ -1364,6 +1364,68 @@ pub fn units() -> Vec<Unit> {
     },
     // ---- builder G (tie A for the `LoRa<RK, DLY>` state machine, C14): translated by `loraapi.rs`
     Unit { module: "Gen.LoRaApiFn", file: "lora-phy/src/lib.rs", more_files: vec!["lora-phy/src/mod_params.rs"], imports: vec![], items: vec![] },
+    // ---- builder B (tie A for packet fetch, C18)
+    // `RadioBuffer<N>` (lorawan-device/src/radio.rs): `[u8; N]` is a byte list, `&mut self` methods are state-passing
+    Unit {
+        module: "Gen.RadioBufferFn",
+        file: "lorawan-device/src/radio.rs",
+        more_files: vec![],
+        imports: vec![],
+        items: vec![
+            Struct("RadioBuffer"),
+            Fn("RadioBuffer::clear"),
+            Fn("RadioBuffer::set_pos"),
+            Fn("RadioBuffer::extend_from_slice"),
+            Fn("RadioBuffer::as_mut_for_read"),
+            Fn("RadioBuffer::as_ref_for_read"),
+            TraitFn("AsMut", "RadioBuffer", "as_mut"),
+            TraitFn("AsRef", "RadioBuffer", "as_ref"),
+        ],
+    },
+    // `get_rx_payload` of the SX126x driver in the I/O mode: the caller's `&mut [u8]` receive buffer is passed by value
+    // and handed back (a read of n bytes INTO `receiving_buffer[..n]`: `Rt.slice` + write-back)
+    Unit {
+        module: "Gen.PhyRxFn126",
+        file: "lora-phy/src/sx126x/mod.rs",
+        more_files: vec!["lora-phy/src/sx126x/variant.rs", "lora-phy/src/sx126x/radio_kind_params.rs", "lora-phy/src/mod_params.rs", "lora-modulation/src/lib.rs"],
+        imports: vec!["LoraVerif.RtPhy", "LoraVerif.Gen.PhyCodes126", "LoraVerif.Gen.PhyArith", "LoraVerif.Gen.PhyErr"],
+        items: vec![
+            ExternUnit("Gen.PhyCodes126"),
+            ExternUnit("Gen.PhyArith"),
+            ExternUnit("Gen.PhyErr"),
+            Enum("OpStatusErrorMask"),
+            Fn("OpStatusErrorMask::is_error"),
+            Struct("PacketParams"),
+            Struct("Sx1262"),
+            Alias("C", "Sx1262"),
+            Struct("Config"),
+            StructPartial("Sx126x", &["config"]),
+            IoMode(true),
+            TraitFn("RadioKind", "Sx126x", "get_rx_payload"),
+            IoMode(false),
+        ],
+    },
+    // `LoRa::get_rx_result` (lora-phy/src/lib.rs): which buffer / which length travel between the caller and the
+    // `RadioKind` (state-passing; the `RadioKind` methods are abstract: `RkOps`)
+    Unit {
+        module: "Gen.LoraRxFn",
+        file: "lora-phy/src/lib.rs",
+        more_files: vec!["lora-phy/src/mod_params.rs"],
+        imports: vec![],
+        items: vec![
+            Struct("DutyCycleParams"),
+            EnumData("RxMode"),
+            EnumData("RadioMode"),
+            Struct("PacketStatus"),
+            Struct("PacketParams"),
+            Raw(LORA_RX_RAW),
+            ExternStructRaw("RK", &[]),
+            ExternFnX("RK::get_rx_payload", "RkOps.get_rx_payload", &[("self", "RK"), ("rx_pkt_params", "PacketParams"), ("receiving_buffer", "[u8]")], "Result<u8, RadioError>", &["self", "receiving_buffer"], true),
+            ExternFnX("RK::get_rx_packet_status", "RkOps.get_rx_packet_status", &[("self", "RK")], "Result<PacketStatus, RadioError>", &["self"], true),
+            StructPartial("LoRa", &["radio_kind", "radio_mode"]),
+            Fn("LoRa::get_rx_result"),
+        ],
+    },
     ]
 }
 
@@ -1807,4 +1869,20 @@ const CODEC_FN_RAW: &str = r#"/-- the trait object `&dyn Crypto` (keys.rs), boun
 structure Crypto where
   calculate_mic : List Int → List Int → List Int
   encrypt_block : List Int → Option (List Int)
+"#;
+
+/// builder B: the `RadioKind` of `LoRa<RK, DLY>` as `get_rx_result` / `complete_rx` see it
+const LORA_RX_RAW: &str = r#"set_option warn.classDefReducibility false
+/-- the `RadioKind` of `LoRa<RK, DLY>`: its state type and the two methods the receive result is fetched with: `none` = a
+panic; the inner `Option` is the `Result` (`none` = `Err`); the driver state and (for `get_rx_payload`) the caller's
+buffer come back in both cases -/
+class RkOps where
+  RK : Type
+  [decRK : DecidableEq RK]
+  [reprRK : Repr RK]
+  get_rx_payload : RK → PacketParams → List Int → Option (Option Int × RK × List Int)
+  get_rx_packet_status : RK → Option (Option PacketStatus × RK)
+attribute [instance] RkOps.decRK RkOps.reprRK
+variable [K : RkOps]
+abbrev RK := K.RK
 "#;
